@@ -383,3 +383,167 @@ Definition C09_congruence_full_statement : Prop :=
     | Fail, Fail | Panic, Panic => True
     | _, _ => False
     end.
+
+(* ================================================================== wave 3: congruence for the remaining operations
+   (Proofs/CongruenceProofs.v).  Results are compared by
+     same_result  : both panic, or both return frames with the same Err state AND the same logical table;
+     same_visible : both panic, or both return frames with the same Err state and, without Err, the same logical
+                    table (a frame with Err exposes nothing but its Err: Len = -1, every view is an error). *)
+From QF Require Import Model.FilterSpec Proofs.FilterTypedFrame Proofs.OpsProofs2 Proofs.CongruenceProofs.
+
+(* The statement kept above as C09_congruence_full_statement does NOT hold as written, and not only because of
+   oracle totality: the logical table does not show the value list of an enum column, but Filter compares enum
+   cells BY RANK.  Two frames with the same table, the enum values declared in opposite orders: *)
+Definition C09_cf : frame := mkFrame [([69%N], ECol [0; 1]%N [[97%N]; [98%N]] false)] [0; 1] false.
+Definition C09_cg : frame := mkFrame [([69%N], ECol [1; 0]%N [[98%N]; [97%N]] false)] [0; 1] false.
+Theorem C09_congruence_full_statement_is_false : ~ C09_congruence_full_statement.
+Proof.
+  intro H.
+  set (c := CLeaf (mkLeaf [69%N] (CmpName (bs 1 0x3c)) (AStr [98%N]) false)).
+  assert (Hnd : NoDup [0; 1]) by (repeat constructor; simpl; intuition discriminate).
+  specialize (H (fun f => frame_filter [] f c) (or_introl (ex_intro _ [] (ex_intro _ c eq_refl)))
+                C09_cf C09_cg (mkTable [[69%N]] [TEnum] [[CEnum (Some [97%N])]; [CEnum (Some [98%N])]])
+                eq_refl eq_refl Hnd Hnd eq_refl eq_refl eq_refl).
+  vm_compute in H. destruct H as [_ H]. discriminate H.
+Qed.
+Print Assumptions C09_congruence_full_statement_is_false.
+
+(* ---- Apply: every instruction kind (func() T, constants, column copies, func(T) U, func(T, T) T, the built in
+   ToUpper, unsupported values), every program, sources and destinations overlapping arbitrarily.
+   Premises a reader may find surprising: afn_wf (a recorded function's results have its declared Go type; no
+   enum-typed function or constant exists) and upper_prog_okb - ToUpper on an ENUM column upper-cases the whole
+   value list, also entries no row uses, which the logical table does not show: the oracle table must answer
+   there (it holds for every program without ToUpper, C09_no_toupper_premise, and follows from the premise of
+   C10_no_panic_apply, C09_tables_premise).  No premise about the function tables otherwise: where a recorded
+   table lacks an entry BOTH runs panic. *)
+Theorem C09_apply_congr ut f g t is :
+  abs f = Ok t -> abs g = Ok t -> ferr f = ferr g ->
+  wf_frame f = true -> wf_frame g = true -> NoDup (ix f) -> NoDup (ix g) ->
+  forallb (fun i => afn_wf (ifn i)) is = true ->
+  upper_prog_okb ut f is = true -> upper_prog_okb ut g is = true ->
+  same_result (apply ut f is) (apply ut g is).
+Proof. exact (apply_congr ut f g t is). Qed.
+Print Assumptions C09_apply_congr.
+Theorem C09_no_toupper_premise ut is f :
+  forallb (fun i => no_builtin (ifn i)) is = true -> upper_prog_okb ut f is = true.
+Proof. exact (no_builtin_upper_prog ut is f). Qed.
+Print Assumptions C09_no_toupper_premise.
+Theorem C09_tables_premise ut is f : NoPanicProofs.apply_tables_okb ut f is = true -> upper_prog_okb ut f is = true.
+Proof. exact (apply_tables_upper_prog ut is f). Qed.
+Print Assumptions C09_tables_premise.
+
+(* the rebuilt twin of ex_f (C09_rebuild_example): other physical layout, identity index, same table *)
+Definition ex_h : frame :=
+  mkFrame [([65%N], FCol [0x3FF0000000000000; 0x7FF8000000000001; 0]%N); ([66%N], SCol [Some [97%N]; None; Some []]);
+           ([67%N], ECol [0; 1; 255]%N [[120%N]; [121%N]] true)] [0; 1; 2] false.
+Definition ex_ut : upper_table := [([97%N], [65%N]); ([120%N], [88%N]); ([121%N], [88%N]); ([], [])].
+Definition ex_prog : list instr :=
+  [mkInstr (FBuiltin name_ToUpper) [68%N] [67%N] [];
+   mkInstr (FBuiltin name_ToUpper) [66%N] [66%N] [];
+   mkInstr (F0Const (CInt 7)) [69%N] [] [];
+   mkInstr (F0ColName [68%N]) [70%N] [] []].
+Example C09_apply_congr_example :
+  rebuild ex_f = Ok ex_h /\ abs ex_f = abs ex_h /\ wf_frame ex_f = true /\ wf_frame ex_h = true
+  /\ forallb (fun i => afn_wf (ifn i)) ex_prog = true
+  /\ upper_prog_okb ex_ut ex_f ex_prog = true /\ upper_prog_okb ex_ut ex_h ex_prog = true
+  /\ (do r <- apply ex_ut ex_f ex_prog; do t <- abs r; Ok (map (fun row => skipn 3 row) (trows t)))
+     = Ok [[CEnum (Some [88%N]); CInt 7; CEnum (Some [88%N])]; [CEnum (Some [88%N]); CInt 7; CEnum (Some [88%N])];
+           [CEnum None; CInt 7; CEnum None]]%Z.
+Proof. vm_compute. repeat split; reflexivity. Qed.
+
+(* ---- WithRowNums: no premise beyond the common ones *)
+Theorem C09_with_row_nums_congr f g t name :
+  abs f = Ok t -> abs g = Ok t -> ferr f = ferr g ->
+  wf_frame f = true -> wf_frame g = true -> NoDup (ix f) -> NoDup (ix g) ->
+  same_result (with_row_nums f name) (with_row_nums g name).
+Proof. exact (with_row_nums_congr f g t name). Qed.
+Print Assumptions C09_with_row_nums_congr.
+
+(* ---- Filter, every clause tree.  Derived from the C02 theorem (model = row-wise specification) by showing that
+   the specification reads a row only through its cells and through the value list and strictness of enum
+   columns.  Premises: those of the C02 theorem for both frames (c02_premises_b: well formed, no Err, pairwise
+   different enum values, duplicate-free index, the specification answers for every leaf on every row, no
+   "not in"), at least one row (on a frame without rows the implementation validates the clause by other means
+   than row by row), and enum_metas: the enum columns have the same value lists and strictness - see the
+   counterexample above for why that cannot be dropped. *)
+Theorem C09_filter_congr mt f g t c :
+  abs f = Ok t -> abs g = Ok t ->
+  c02_premises_b mt f c = true -> c02_premises_b mt g c = true -> trows t <> [] ->
+  enum_metas f = enum_metas g ->
+  same_visible (frame_filter mt f c) (frame_filter mt g c).
+Proof. exact (fun Hf Hg P1 P2 Hne Hm => proj2 (filter_congr mt f g t c Hf Hg P1 P2 Hne Hm)). Qed.
+Print Assumptions C09_filter_congr.
+
+Definition ex_clause : clause :=
+  CAnd [CLeaf (mkLeaf [67%N] (CmpName (bs 1 0x3c)) (AStr [121%N]) false);
+        CNot (CLeaf (mkLeaf [66%N] (CmpName name_isnull) ANil false))].
+Example C09_filter_congr_example :
+  c02_premises_b [] ex_f ex_clause = true /\ c02_premises_b [] ex_h ex_clause = true
+  /\ enum_metas ex_f = enum_metas ex_h
+  /\ option_map ix (match frame_filter [] ex_f ex_clause with Ok r => Some r | _ => None end) = Some [2]
+  /\ option_map ix (match frame_filter [] ex_h ex_clause with Ok r => Some r | _ => None end) = Some [0].
+Proof. vm_compute. repeat split; reflexivity. Qed.
+
+(* ---- FilteredApply: all rows of the result agree - the matching rows hold the program's values, the others
+   what the implementation leaves there (zero values, the constant, the copied column, "" for ToUpper into a
+   string column), whatever that is it is the same function of the row in both frames *)
+Theorem C09_filtered_apply_congr mt ut f g t c is :
+  abs f = Ok t -> abs g = Ok t ->
+  c02_premises_b mt f c = true -> c02_premises_b mt g c = true -> trows t <> [] ->
+  enum_metas f = enum_metas g ->
+  forallb (fun i => afn_wf (ifn i)) is = true ->
+  (forall ff, frame_filter mt f c = Ok ff -> upper_prog_okb ut (with_ix f (ix ff)) is = true) ->
+  (forall gg, frame_filter mt g c = Ok gg -> upper_prog_okb ut (with_ix g (ix gg)) is = true) ->
+  same_visible (filtered_apply mt ut f c is) (filtered_apply mt ut g c is).
+Proof. exact (filtered_apply_congr mt ut f g t c is). Qed.
+Print Assumptions C09_filtered_apply_congr.
+
+Example C09_filtered_apply_congr_example :
+  (forall ff, frame_filter [] ex_f ex_clause = Ok ff -> upper_prog_okb ex_ut (with_ix ex_f (ix ff)) ex_prog = true)
+  /\ (forall gg, frame_filter [] ex_h ex_clause = Ok gg -> upper_prog_okb ex_ut (with_ix ex_h (ix gg)) ex_prog = true)
+  /\ (do r <- filtered_apply [] ex_ut ex_f ex_clause ex_prog; do t <- abs r; Ok (map (fun row => skipn 1 row) (trows t)))
+     = Ok [[CStr (Some [65%N]); CEnum (Some [120%N]); CEnum (Some [88%N]); CInt 7; CEnum (Some [88%N])];
+           [CStr (Some []); CEnum (Some [121%N]); CEnum (Some [88%N]); CInt 7; CEnum (Some [88%N])];
+           [CStr (Some []); CEnum None; CEnum None; CInt 7; CEnum None]]%Z
+  /\ (do r <- filtered_apply [] ex_ut ex_f ex_clause ex_prog; abs r)
+     = (do r <- filtered_apply [] ex_ut ex_h ex_clause ex_prog; abs r).
+Proof.
+  split; [intros ff H; vm_compute in H; inversion H; subst ff; vm_compute; reflexivity|].
+  split; [intros gg H; vm_compute in H; inversion H; subst gg; vm_compute; reflexivity|].
+  split; vm_compute; reflexivity.
+Qed.
+
+(* ---- Eval: corollary of the C07 theorem (the stored column is the denotation of the tree on the logical
+   table).  Premises: those of C07_eval - registered context functions typed (ctx_ok), pairwise different
+   non-empty column names, hygienic column references, fewer than 10000 - temps_needed columns - and no open
+   sub-tree (has_open: a recorded table lacks an entry in an inner position, where the model panics in one
+   frame order and could report an error in another). *)
+Theorem C09_eval_congr ut cx f g t dst e :
+  abs f = Ok t -> abs g = Ok t -> ferr f = ferr g -> wf_frame f = true -> wf_frame g = true ->
+  EvalFull.ctx_ok cx = true -> EvalFull.names_ok f = true -> EvalFull.expr_ok f e = true ->
+  (N.of_nat (length (cols f) + EvalFull.temps_needed e) <= 10000)%N -> EvalFull.has_open cx t e = false ->
+  same_visible (Eval.eval ut cx f dst e) (Eval.eval ut cx g dst e).
+Proof. exact (eval_congr ut cx f g t dst e). Qed.
+Print Assumptions C09_eval_congr.
+
+Example C09_eval_congr_example :
+  let cx := [((TFloat, true, [43%N]),
+              F2 TFloat [(CFloat 0x3FF0000000000000, CFloat 0x3FF0000000000000, CFloat 0x4000000000000000);
+                         (CFloat 0x7FF8000000000001, CFloat 0x7FF8000000000001, CFloat 0x7FF8000000000001);
+                         (CFloat 0, CFloat 0, CFloat 0)]%N)] in
+  let e := Eval.XColCol [43%N] [65%N] [65%N] in
+  EvalFull.ctx_ok cx = true /\ EvalFull.names_ok ex_f = true /\ EvalFull.expr_ok ex_f e = true
+  /\ (do t <- abs ex_f; Ok (EvalFull.has_open cx t e)) = Ok false
+  /\ (do r <- Eval.eval [] cx ex_f [90%N] e; do t <- abs r; Ok (map (fun row => skipn 3 row) (trows t)))
+     = Ok [[CFloat 0x4000000000000000]; [CFloat 0x7FF8000000000001]; [CFloat 0]]%N
+  /\ (do r <- Eval.eval [] cx ex_f [90%N] e; abs r) = (do r <- Eval.eval [] cx ex_h [90%N] e; abs r).
+Proof. vm_compute. repeat split; reflexivity. Qed.
+
+(* ---- the strongest true replacement of C09_congruence_full_statement, in one statement *)
+Definition C09_congruence_statement2 : Prop := congruence_statement2.
+Theorem C09_congruence2 : C09_congruence_statement2.
+Proof. exact congruence2. Qed.
+Print Assumptions C09_congruence2.
+(* Still NOT theorems: congruence for Sort, Distinct, GroupBy/Aggregate (their table-level characterisations
+   belong to C03/C04/C05), Filter and FilteredApply on frames WITHOUT rows, and congruence with respect to Equals
+   itself instead of table identity (it fails for -0 / +0: 1/x tells them apart). *)
